@@ -106,7 +106,66 @@ def nx_bipartite(L, R, edges, order):
     return G
 
 
+def build_cli(case):
+    """The same families through the command line (in-process call of the
+    function the console script runs, formula object returned)."""
+    import random
+    import importlib
+    import cnfgen.clitools.msg as msgmod
+    tool = case.get('tool', 'cnfgen')
+    mod = importlib.import_module('cnfgen.clitools.' + tool)
+    if hasattr(msgmod, '_prefix'):
+        msgmod._prefix = ''
+    st = random.getstate()
+    try:
+        argv = [tool, '-q', '--seed', str(case.get('seed', 1))] + [str(x) for x in case['cli']]
+        return mod.cli(argv, mode='formula')
+    finally:
+        random.setstate(st)
+
+
+def cli_reference_case(case, S):
+    """The library-level case a command line denotes; graphs drawn at random
+    by the command line are recovered from the published variable names and
+    checked against what was asked for.  Returns (case, problem or None)."""
+    r = case['ref']
+    kind = r['kind']
+    pre = S.prefixes()
+    if kind == 'direct':
+        return {'fam': r['fam'], 'args': r['args']}, None
+    if kind == 'gphp':
+        edges = sorted(pre.get('p', []))
+        P, H = r['P'], r['H']
+        if any(not (1 <= i <= P and 1 <= j <= H) for (i, j) in edges):
+            return None, 'variables %r outside %d pigeons x %d holes' % (edges[:4], P, H)
+        if r.get('deg') is not None:
+            for i in range(1, P + 1):
+                d = sum(1 for (u, _) in edges if u == i)
+                if d != r['deg']:
+                    return None, 'pigeon %d can fly to %d holes, %d requested' % (i, d, r['deg'])
+        return {'fam': 'gphp', 'args': [P, H, [list(e) for e in edges], r['functional'], r['onto']]}, None
+    if kind == 'matching':
+        edges = sorted(pre.get('e', []))
+        n = r['n']
+        if any(not (1 <= u < v <= n) for (u, v) in edges):
+            return None, 'edge variables %r outside a simple graph on %d vertices' % (edges[:4], n)
+        if r.get('m') is not None and len(edges) != r['m']:
+            return None, '%d edges, %d requested' % (len(edges), r['m'])
+        return {'fam': 'matching', 'args': [n, [list(e) for e in edges]]}, None
+    if kind == 'subsetcard':
+        edges = sorted(pre.get('x', []))
+        L, R_ = r['L'], r['R']
+        if any(not (1 <= i <= L and 1 <= j <= R_) for (i, j) in edges):
+            return None, 'variables %r outside a %dx%d bipartite graph' % (edges[:4], L, R_)
+        if r.get('m') is not None and len(edges) != r['m']:
+            return None, '%d edges, %d requested' % (len(edges), r['m'])
+        return {'fam': 'subsetcard', 'args': [L, R_, [list(e) for e in edges], False]}, None
+    raise KeyError(kind)
+
+
 def build(case):
+    if case.get('cli') is not None:
+        return build_cli(case)
     import cnfgen
     from cnfgen.formula.cnf import CNF
     from cnfgen.formula.opb import OPB
@@ -453,7 +512,8 @@ def check_case(case, R=None):
     out = []
 
     def bad(sym, what):
-        out.append({'key': '%s:%s' % (fam, sym), 'what': what, 'case': dict(case)})
+        out.append({'key': '%s%s:%s' % ('cli:' if case.get('cli') is not None else '', fam, sym),
+                    'what': what, 'case': dict(case)})
 
     try:
         F = build(case)
@@ -469,8 +529,16 @@ def check_case(case, R=None):
     if S.bad_names:
         bad('names', 'unparsable or duplicate names %r' % (S.bad_names[:3],))
         return out
+    refcase = case
+    if case.get('cli') is not None:
+        refcase, problem = cli_reference_case(case, S)
+        if problem:
+            bad('graph', 'command line %r: %s' % (case['cli'], problem))
+            return out
+        if R is not None:
+            R.stats['command_lines'] += 1
     try:
-        exp, nv, sat, cnt = reference(case, S)
+        exp, nv, sat, cnt = reference(refcase, S)
     except KeyError as e:
         bad('names', 'documented variable %r does not exist among %r' % (e.args, names[:6]))
         return out
@@ -576,6 +644,74 @@ def cases(tier, seed):
     return cs
 
 
+def cli_cases(tier, seed):
+    """Every form of the command lines of these families x flag subsets x
+    seeds (random graph arguments): the formula built must be the family on
+    the parameters/graph the command line denotes."""
+    thorough = tier == 'thorough'
+    cs = []
+    seeds = (1, 2, 3) if thorough else (1, 2)
+    tools = ('cnfgen', 'pbgen')
+    flagsets = [[], ['--functional'], ['--onto'], ['--functional', '--onto']]
+
+    def add(fam, argv, ref, rnd=False, tools_=tools):
+        for tool in tools_:
+            for sd in (seeds if rnd else (1,)):
+                cs.append({'fam': fam, 'cli': argv, 'tool': tool, 'seed': sd, 'ref': ref})
+    for fl in flagsets:
+        f, o = '--functional' in fl, '--onto' in fl
+        for N in range(0, 4):
+            add('php', ['php', N] + fl, {'kind': 'direct', 'fam': 'php', 'args': [N + 1, N, f, o]})
+        for M in range(0, 4):
+            for N in range(0, 5):
+                if M * N <= 12:
+                    add('php', ['php', M, N] + fl,
+                        {'kind': 'direct', 'fam': 'php', 'args': [M, N, f, o]})
+                for D in range(0, N + 1):
+                    if M * D <= 12 and M >= 1:
+                        add('php', ['php', M, N, D] + fl,
+                            {'kind': 'gphp', 'P': M, 'H': N, 'deg': D, 'functional': f, 'onto': o},
+                            rnd=0 < D < N)
+        for spec, (L, Rr, deg) in ((['glrd', 3, 4, 2], (3, 4, 2)), (['complete', 2, 3], (2, 3, 3)),
+                                   (['regular', 4, 4, 2], (4, 4, 2)), (['glrp', 3, 3, '.5'], (3, 3, None)),
+                                   (['glrm', 3, 4, 5], (3, 4, None)), (['shift', 3, 4, 1, 2], (3, 4, 2)),
+                                   (['empty', 2, 2], (2, 2, 0))):
+            add('php', ['php'] + spec + fl,
+                {'kind': 'gphp', 'P': L, 'H': Rr, 'deg': deg, 'functional': f, 'onto': o},
+                rnd=spec[0] in ('glrd', 'regular', 'glrp', 'glrm'))
+    for M in range(1, 4):        # the command line wants positive numbers here
+        for N in range(1, 6):
+            if M * max(0, (N - 1).bit_length()) <= 12:
+                add('bphp', ['bphp', M, N], {'kind': 'direct', 'fam': 'bphp', 'args': [M, N]})
+    for P in range(0, 3):
+        for T in range(0, 3):
+            for H in range(0, 3):
+                add('rphp', ['rphp', P, T, H], {'kind': 'direct', 'fam': 'rphp', 'args': [P, T, H]})
+    for N in range(0, 7):
+        add('count', ['parity', N], {'kind': 'direct', 'fam': 'count', 'args': [N, 2]})
+    for M in range(0, 7):
+        for p_ in range(1, M + 2):
+            if comb(M, p_) <= 16:
+                add('count', ['count', M, p_], {'kind': 'direct', 'fam': 'count', 'args': [M, p_]})
+    for spec, n, m, rnd in ((['complete', 4], 4, 6, False), (['gnp', 5, '.5'], 5, None, True),
+                            (['gnm', 5, 6], 5, 6, True), (['grid', 2, 3], 6, 7, False),
+                            (['empty', 3], 3, 0, False), (['gnd', 6, 3], 6, 9, True),
+                            (['empty', 1], 1, 0, False)):
+        add('matching', ['matching'] + spec, {'kind': 'matching', 'n': n, 'm': m}, rnd=rnd)
+    for spec, L, Rr, m, rnd in ((['glrd', 3, 3, 2], 3, 3, 6, True), (['complete', 2, 3], 2, 3, 6, False),
+                                (['regular', 4, 4, 2], 4, 4, 8, True), ([4, 2], 4, 4, 9, True),
+                                ([5], 5, 5, 21, True), (['glrm', 3, 4, 7], 3, 4, 7, True)):
+        add('subsetcard', ['subsetcard'] + spec, {'kind': 'subsetcard', 'L': L, 'R': Rr, 'm': m},
+            rnd=rnd)
+    for n in range(1, 4):
+        for k in range(1, 3):
+            for c in range(1, 3):
+                if comb(n, 2) + k * n + n * c <= 14:
+                    add('cliquecol', ['cliquecoloring', n, k, c],
+                        {'kind': 'direct', 'fam': 'cliquecol', 'args': [n, k, c]})
+    return cs
+
+
 def large_cases(tier, seed):
     """Instances beyond the reach of truth tables, checked clause set vs
     documented axioms: sizes with two-digit indices, non-square shapes,
@@ -633,6 +769,8 @@ def shards(tier, seed):
     out = [('s%03d' % i, 'run_cases', chunk) for i, chunk in enumerate(scope.stripe(cs, k))]
     for i, chunk in enumerate(scope.stripe(large_cases(tier, seed), 8)):
         out.append(('x%03d' % i, 'run_axioms', chunk))
+    for i, chunk in enumerate(scope.stripe(cli_cases(tier, seed), 16)):
+        out.append(('c%03d' % i, 'run_cases', chunk))
     return out
 
 
